@@ -52,7 +52,7 @@ int main(int argc, char** argv) {
   } else {
     CHECK(n == 2 && seen[1] == second && lr._lr_indicator.load() == new_lri, "second application wrong on the throwing path");
   }
-  CHECK(lr._read_indicator1._counter.load() == 0 && lr._read_indicator2._counter.load() == 0, "writer changed a read indicator");
+  CHECK(lr._read_indicator1.empty() && lr._read_indicator2.empty(), "writer changed a read indicator");
   printf("update: %d applications, %d violations\n", n, bad);
   return bad ? 1 : 0;
 }
